@@ -8,7 +8,8 @@ Translated from the Python AST (integer expressions over `Int`, conditions as `P
   * `_SFTPFileWriter.run_task`: `pos`, the slice bounds of the block, the reported count;
   * `_SFTPFileCopier.run`: the end-of-transfer size check;
   * `SFTPClient._begin_copy` / `SFTPClientFile.__init__`: the default `max_requests`;
-  * `SFTPClientFile.read` / `.write`: the parallel-path tests and the new file position.
+  * `SFTPClientFile.read` / `.write`: the parallel-path tests and the new file position (in bytes of the encoded data);
+  * `_SFTPParallelIO.iter`: who takes SFTPEOFError for the end of the file; `SFTPServer.write`: loop until written.
 Anything the translator does not recognise raises `translate.Untranslatable`.
 """
 
@@ -188,8 +189,107 @@ def generate() -> Tuple[str, Dict[str, Any]]:
         add('offset of the re-request', 'contOffset', ['offset', 'size', 'count'], 'Int', expr(call.args[0], env))
         add('size of the re-request', 'contSize', ['offset', 'size', 'count'], 'Int', expr(call.args[1], env))
 
+        # what `iter` does with SFTPEOFError: the end of the file for everybody (the code before the repair), or
+        # only for the class(es) that say so (`_stop_at_eof`-style class attribute), a failed block otherwise
+        eofh = [h for h in _walk_sorted(it, ast.ExceptHandler) if h.type is not None and
+                'SFTPEOFError' in ast.unparse(h.type)]
+        if len(eofh) != 1:
+            raise T.Untranslatable('iter: one `except SFTPEOFError` handler expected')
+        stop = "self._bytes_left = 0"
+
+        def class_flag(cls: str, attr: str) -> Optional[bool]:
+            for st_ in T.find_def(tree, cls).body:       # type: ignore
+                if isinstance(st_, ast.Assign) and len(st_.targets) == 1 and ast.unparse(st_.targets[0]) == attr \
+                        and isinstance(st_.value, ast.Constant) and isinstance(st_.value.value, bool):
+                    return st_.value.value
+            return None
+        hb = eofh[0].body
+        if len(hb) == 1 and ast.unparse(hb[0]) == stop:
+            eof_is_error = False
+        elif len(hb) == 1 and isinstance(hb[0], ast.If) and isinstance(hb[0].test, ast.Attribute) and \
+                ast.unparse(hb[0].test.value) == 'self' and [ast.unparse(x) for x in hb[0].body] == [stop] and \
+                len(hb[0].orelse) == 1 and eofh[0].name is not None and \
+                ast.unparse(hb[0].orelse[0]) == f'exceptions.append({eofh[0].name})':
+            attr = hb[0].test.attr
+            vals = {c: class_flag(c, attr) for c in ('_SFTPParallelIO', '_SFTPFileReader', '_SFTPFileWriter',
+                                                     '_SFTPFileCopier')}
+            if vals['_SFTPParallelIO'] is not False or vals['_SFTPFileReader'] is not True:
+                raise T.Untranslatable(f'iter: {attr} must be False by default and True for the reader')
+            if vals['_SFTPFileWriter'] is None and vals['_SFTPFileCopier'] is None:
+                eof_is_error = True
+            elif vals['_SFTPFileWriter'] is True and vals['_SFTPFileCopier'] is True:
+                eof_is_error = False
+            else:
+                raise T.Untranslatable(f'iter: writer and copier differ on {attr}')
+        else:
+            raise T.Untranslatable('iter: unrecognised SFTPEOFError handler')
+        # the collected exception is what is raised (so an EOF status that is a failed block does raise)
+        if 'raise exceptions[0]' not in ast.unparse(it):
+            raise T.Untranslatable('iter: `raise exceptions[0]` expected')
+        info['write_eof_is_error'] = eof_is_error
+
     except Exception as e:      # keep going: the file is written from this tree, then the error is raised
         errors.append('_SFTPParallelIO.iter' + ': ' + str(e))
+
+    # --- SFTPServer.write: one write() whose count is dropped, or a loop until the block is complete ------
+    try:
+        sw = T.find_def(tree, 'SFTPServer.write')
+        sp_ = params(sw)
+        if len(sp_) != 3:
+            raise T.Untranslatable('SFTPServer.write(file_obj, offset, data) expected')
+        _pf, _po, pd = sp_
+        wcalls = [c for c in _walk_sorted(sw, ast.Call) if isinstance(c.func, ast.Attribute) and c.func.attr == 'write']
+        loops = _walk_sorted(sw, ast.While)
+        if len(wcalls) != 1:
+            raise T.Untranslatable('SFTPServer.write: one file write() call expected')
+        if not loops:
+            rets = _walk_sorted(sw, ast.Return)
+            if len(rets) != 1 or rets[0].value is not wcalls[0] or [ast.unparse(a) for a in wcalls[0].args] != [pd]:
+                raise T.Untranslatable('SFTPServer.write: `return file_obj.write(data)` expected')
+            writes_all = False
+            add('(no loop in this tree: one write(), its count is returned and dropped)', 'writeLoopCond',
+                ['written', 'len_data'], 'Prop', 'False')
+            add('(no loop in this tree)', 'writeLoopNext', ['written', 'count'], 'Int', 'written')
+        else:
+            if len(loops) != 1 or loops[0].orelse:
+                raise T.Untranslatable('SFTPServer.write: one loop expected')
+            loop = loops[0]
+            augs = _walk_sorted(loop, ast.AugAssign)
+            if len(augs) != 1 or not isinstance(augs[0].target, ast.Name):
+                raise T.Untranslatable('SFTPServer.write: one counter update in the loop expected')
+            vw = augs[0].target.id
+            cnts = [a for a in name_assigns(loop) if a.value is wcalls[0]]
+            if len(cnts) != 1:
+                raise T.Untranslatable('SFTPServer.write: `count = file_obj.write(...)` in the loop expected')
+            vc = cnts[0].targets[0].id      # type: ignore
+            inits = [a for a in name_assigns(sw) if a.targets[0].id == vw and ast.unparse(a.value) == '0'   # type: ignore
+                     and a.lineno < loop.lineno]
+            if len(inits) != 1:
+                raise T.Untranslatable('SFTPServer.write: the counter must start at 0')
+            # what is handed to write() is the unwritten rest of the block: <view of data>[written:]
+            arg = wcalls[0].args[0] if len(wcalls[0].args) == 1 else None
+            views = {a.targets[0].id for a in name_assigns(sw)       # type: ignore
+                     if ast.unparse(a.value) == f'memoryview({pd})'} | {pd}
+            if not (isinstance(arg, ast.Subscript) and ast.unparse(arg.value) in views and
+                    isinstance(arg.slice, ast.Slice) and arg.slice.upper is None and arg.slice.step is None and
+                    arg.slice.lower is not None and ast.unparse(arg.slice.lower) == vw):
+                raise T.Untranslatable('SFTPServer.write: write(data[written:]) expected')
+            # a write that makes no progress must raise (otherwise the loop would spin)
+            guards = [i for i in _walk_sorted(loop, ast.If) if ast.unparse(i.test) == f'not {vc}' and
+                      len(i.body) == 1 and isinstance(i.body[0], ast.Raise) and i.lineno < augs[0].lineno]
+            if len(guards) != 1:
+                raise T.Untranslatable('SFTPServer.write: `if not count: raise` before the counter update expected')
+            if any(isinstance(x, (ast.Break, ast.Return)) for x in ast.walk(loop)):
+                raise T.Untranslatable('SFTPServer.write: the loop has another exit')
+            env = {vw: 'written', f'len({pd})': 'len_data', vc: 'count'}
+            writes_all = True
+            add('`while written < len(data)`: the loop of `SFTPServer.write` goes on while part of the block is unwritten',
+                'writeLoopCond', ['written', 'len_data'], 'Prop', cond(loop.test, env))
+            add('`written += count`', 'writeLoopNext', ['written', 'count'], 'Int', expr(_aug_expr(augs[0]), env))
+        info['server_writes_all'] = writes_all
+
+    except Exception as e:      # keep going: the file is written from this tree, then the error is raised
+        errors.append('SFTPServer.write' + ': ' + str(e))
 
     # --- _SFTPFileReader.run -----------------------------------------------------------------------
     try:
@@ -387,14 +487,41 @@ def generate() -> Tuple[str, Dict[str, Any]]:
         fr = T.find_def(tree, 'SFTPClientFile.read')
         env = {'self.read_len': 'read_len', 'size': 'size', 'self._handler.limits.max_read_len': 'max_read_len',
                'offset': 'offset', 'len(data)': 'len_data'}
-        add('`if self.read_len and size > min(self.read_len, max_read_len)` (parallel read path)', 'readParallelCond',
-            ['read_len', 'max_read_len', 'size'], 'Prop', cond(_if_with(fr, 'self.read_len').test, env))
+        # `size is None or size < 0` (read to the end of the file), possibly kept in a local for the path choice
+        toend = [a for a in name_assigns(fr) if ast.unparse(a.value) == 'size is None or size < 0']
+        endifs = [i for i in _walk_sorted(fr, ast.If) if '_end()' in ast.unparse(i.body) and
+                  ast.unparse(i.test) in ['size is None or size < 0'] + [a.targets[0].id for a in toend]]   # type: ignore
+        if len(endifs) != 1 or len(toend) > 1:
+            raise T.Untranslatable('SFTPClientFile.read: `if size is None or size < 0: size = _end() - offset` expected')
+        ptest = _if_with(fr, 'self.read_len').test
+        uses = False
+        if toend:
+            vte = toend[0].targets[0].id      # type: ignore
+            env[vte] = '?read_to_end'
+            uses = any(isinstance(x, ast.Name) and x.id == vte for x in ast.walk(ptest))
+        add('`if self.read_len and (read_to_end or size > min(self.read_len, max_read_len))` (parallel read path; '
+            'without the `read_to_end` part in a tree before the short-read repair)', 'readParallelCond',
+            ['read_len', 'max_read_len', 'size', 'read_to_end'], 'Prop', cond(ptest, env), bools=('read_to_end',))
+        info['read_to_end_uses_reader'] = uses
         add('`self._offset = offset + len(data)`', 'readNewOffset', ['offset', 'len_data'], 'Int',
             expr(T.find_assign(fr, 'self._offset').value, env))
         fw = T.find_def(tree, 'SFTPClientFile.write')
         env = {'self.write_len': 'write_len', 'datalen': 'datalen', 'offset': 'offset', 'self._appending': '?appending'}
         add('`if self.write_len and datalen > self.write_len` (parallel write path)', 'writeParallelCond',
             ['write_len', 'datalen'], 'Prop', cond(_if_with(fw, 'self.write_len').test, env))
+        # `datalen` is the number of BYTES handed to the server (the encoded form in text mode): the position
+        # moves by what was written, not by the number of characters
+        dl = [a for a in name_assigns(fw) if a.targets[0].id == 'datalen']      # type: ignore
+        hw = _call_named(fw, 'write')
+        pw = _call_named(fw, '_SFTPFileWriter')
+        if len(dl) != 1 or not isinstance(dl[0].value, ast.Call) or ast.unparse(dl[0].value.func) != 'len' or \
+                len(hw.args) != 3 or ast.unparse(dl[0].value.args[0]) != ast.unparse(hw.args[2]) or \
+                ast.unparse(pw.args[-1]) != ast.unparse(hw.args[2]):
+            raise T.Untranslatable('SFTPClientFile.write: `datalen = len(<the bytes handed to the handler>)` expected')
+        vb = ast.unparse(hw.args[2])
+        encs = [a for a in name_assigns(fw) if a.targets[0].id == vb]       # type: ignore
+        if not encs or not any('.encode(self._encoding' in ast.unparse(a.value) for a in encs):
+            raise T.Untranslatable('SFTPClientFile.write: the bytes written are not the encoded data')
         wo = T.find_assign(fw, 'self._offset').value
         if not isinstance(wo, ast.IfExp) or ast.unparse(wo.body) != 'None' or ast.unparse(wo.test) != 'self._appending':
             raise T.Untranslatable('SFTPClientFile.write: `None if self._appending else offset + datalen` expected')
@@ -412,7 +539,14 @@ def generate() -> Tuple[str, Dict[str, Any]]:
            '/-- does `_SFTPFileReader.run_task` turn an empty DATA reply into an error? -/',
            f'def readerRejectsEmpty : Bool := {T.lean_bool(info.get("reader_rejects_empty", False))}', '',
            '/-- does `_SFTPFileCopier.run` extend a sparse destination whose source ends in a hole? -/',
-           f'def copierExtendsSparse : Bool := {T.lean_bool(info.get("copier_extends_sparse", False))}', '']
+           f'def copierExtendsSparse : Bool := {T.lean_bool(info.get("copier_extends_sparse", False))}', '',
+           '/-- is an FX_EOF status in answer to a WRITE a failed block (EOF ends the transfer for the reader only)? -/',
+           f'def writeEofIsError : Bool := {T.lean_bool(info.get("write_eof_is_error", False))}', '',
+           '/-- does `SFTPServer.write` go on writing until the whole block is written (or an error is raised)? -/',
+           f'def serverWritesAll : Bool := {T.lean_bool(info.get("server_writes_all", False))}', '',
+           '/-- does `SFTPClientFile.read()` to the end of the file always use the reader (which re-requests after a '
+           'short reply)? -/',
+           f'def readToEndUsesReader : Bool := {T.lean_bool(info.get("read_to_end_uses_reader", False))}', '']
     for doc, name, ps, typ, body in defs:
         out.append(f'/-- {doc} -/')
         out.append(f'def {name} {ps} : {typ} :=\n  {body}'.replace('  :', ' :'))
